@@ -510,7 +510,6 @@ package commands
 //@   ensures len(old(rrest(r))) == 0 && ptr == nil ==> result1 == nil && rrest(result0) == ""
 //@   ensures len(old(rrest(r))) > 0 ==> rrest(result0) == old(rrest(r))
 
-
 // The buffer between the transfer queue and list_available_blobs: every
 // transfer taken from the queue's watch channel is either forwarded at once or
 // kept, in order, and forwarded later - none is lost and none is sent twice.
